@@ -17,8 +17,12 @@ use super::{
     Check, PrepError, DEFAULT,
 };
 
-pub const FUZZ_BIN: &str = "/verif/harness/target/fuzz/x86_64-unknown-linux-gnu/release/session";
-pub const SEED_CORPUS: &str = "/verif/corpus/fuzz";
+pub fn fuzz_bin() -> String {
+    vmodel::rooted("harness/target/fuzz/x86_64-unknown-linux-gnu/release/session")
+}
+pub fn seed_corpus() -> String {
+    vmodel::rooted("corpus/fuzz")
+}
 
 pub fn check() -> Check {
     Check {
@@ -48,14 +52,14 @@ fn fuzz_runs(tier: Tier) -> u64 {
 }
 
 fn work_dir(tier: Tier) -> PathBuf {
-    Path::new("/verif/harness/run").join(format!("C03-{}-fuzz", tier.name()))
+    vmodel::root().join("harness/run").join(format!("C03-{}-fuzz", tier.name()))
 }
 
 fn prepare(tier: Tier, seed: u64, _dir: &Path) -> Result<Value, PrepError> {
     let t0 = std::time::Instant::now();
     let build = Command::new("cargo")
-        .args(["+nightly", "fuzz", "build", "session", "--target-dir", "/verif/harness/target/fuzz"])
-        .current_dir("/verif/harness/fuzzhost")
+        .args(["+nightly", "fuzz", "build", "session", "--target-dir", &vmodel::rooted("harness/target/fuzz")])
+        .current_dir(vmodel::rooted("harness/fuzzhost"))
         .env("CARGO_NET_OFFLINE", "true")
         .output();
     let built = matches!(&build, Ok(o) if o.status.success());
@@ -79,9 +83,9 @@ fn prepare(tier: Tier, seed: u64, _dir: &Path) -> Result<Value, PrepError> {
         std::fs::create_dir_all(&corpus).unwrap();
         std::fs::create_dir_all(&arts).unwrap();
         let log = std::fs::File::create(wd.join(format!("fuzz-{}.log", k))).unwrap();
-        let child = Command::new(FUZZ_BIN)
+        let child = Command::new(fuzz_bin())
             .arg(&corpus)
-            .arg(SEED_CORPUS)
+            .arg(seed_corpus())
             .arg(format!("-seed={}", seed.wrapping_mul(16).wrapping_add(k as u64 + 1) % 4_000_000_000 + 1))
             .arg(format!("-runs={}", runs))
             .arg("-len_control=0")
@@ -251,7 +255,7 @@ fn run_shard(ctx: &ShardCtx) {
     });
     // replay of the seed corpus and of what the fuzzing campaign kept, in the plain harness build
     let mut files: Vec<PathBuf> = Vec::new();
-    let mut dirs = vec![PathBuf::from(SEED_CORPUS)];
+    let mut dirs = vec![PathBuf::from(seed_corpus())];
     for k in 0..16 {
         dirs.push(work_dir(ctx.tier).join(format!("corpus-{}", k)));
     }
